@@ -1,3 +1,5 @@
+\* C29 thorough, backpressure: 1 channel, 4 items, backlog limits {1,2}, admission capacities {1,2,unbounded}, a Stop.
+\* 300,450 distinct states (842,652 generated), 1 min, 8 workers.
 SPECIFICATION Spec
 CONSTANTS
   NChans = 1
